@@ -419,3 +419,66 @@ func monotoneAtomLint(w *World, r *Report, rule string) {
 	}
 	r.floor(rule, "updates of atoms that are read twice", n, 1)
 }
+
+// handlerThrowLint: a catch handler of the embedded headers never throws anything of its own making in place of
+// what it caught: a library form that wraps its operand in try (to log, to time, to clean up) and then throws
+// another value - a different variable, a message - hands the program's catch something else than the program
+// threw. (Handing on the very value caught is the business of C17.lisp-rethrow, which forbids it for the sake of
+// positions; the library's handlers do neither.)
+func handlerThrowLint(w *World, r *Report, rule string) {
+	r.rule(rule, "no catch handler in the embedded lisp headers contains a throw of anything but the variable it caught (written plainly or as an unquoted template variable): an error raised in the operand of a library macro reaches the program's own catch, and the Go caller, as the object that was thrown - not as another variable's value or an 'unbound symbol' error")
+	files, err := w.lispFiles()
+	if err != nil {
+		r.undecided(rule, nil, "lisp headers", token.NoPos, err.Error())
+		return
+	}
+	// the name a binding or an operand is written as: a symbol, or an unquoted symbol inside a template
+	nameOf := func(s *sx) string {
+		if s.kind == "sym" {
+			return s.text
+		}
+		if s.kind == "list" && s.macro == "unquote" && len(s.items) == 2 && s.items[1].kind == "sym" {
+			return "~" + s.items[1].text
+		}
+		return ""
+	}
+	n := 0
+	for _, f := range files {
+		for _, form := range f.forms {
+			form.walk(func(s *sx) {
+				if s.head() != "catch" || len(s.items) < 2 {
+					return
+				}
+				bound := nameOf(s.items[1])
+				if bound == "" {
+					return
+				}
+				n++
+				bad := ""
+				var visit func(x *sx)
+				visit = func(x *sx) {
+					if x.kind == "list" && x.head() == "catch" {
+						return // an inner handler answers for itself
+					}
+					if x.kind == "list" && x.head() == "throw" && len(x.items) >= 2 {
+						if nameOf(x.items[1]) != bound {
+							bad = x.items[1].String()
+						}
+					}
+					for _, it := range x.items {
+						visit(it)
+					}
+				}
+				for _, b := range s.items[2:] {
+					visit(b)
+				}
+				status, detail := "discharged", "the handler throws nothing of its own"
+				if bad != "" {
+					status, detail = "violated", "the handler that caught "+bound+" throws "+bad+": what reaches the program's catch (and errors.Is in Go) is not the object that was thrown in the operand of the library form"
+				}
+				r.addRaw(rule, f.path, "catch handler binding "+bound, fmt.Sprintf("%s:%d", f.path, s.line), status, detail)
+			})
+		}
+	}
+	r.floor(rule, "catch handlers in the embedded headers", n, 3)
+}
